@@ -45,7 +45,7 @@ JStream(T, f, S) ==
   /\ (S.lines = T.streams[FirstSame(T, S)].lines \/ Say(T, "V", "C13.stream_buffer_independent", cls))
   /\ ((S.maxchunk <= S.B /\ S.maxread <= S.B) \/ Say(T, "V", "C13.chunk_bounded", cls))
   /\ (S.a > T.derived \/ Flat(S.lines) = NormN(f[S.a].res) \/ Say(T, "V", "C04.stream_back", FileCls(T)))
-  /\ (S.lines = StreamLines(f, rows, S.B, S.L) /\ S.maxchunk = MaxChunk(f, rows, S.B)) \/ Say(T, "M", "write_scaffold", cls)
+  /\ (S.lines = StreamLines(f, rows, S.B, S.L) /\ (S.maxchunk = 0 \/ S.maxchunk = MaxChunk(f, rows, S.B))) \/ Say(T, "M", "write_scaffold", cls)
 \* revpairs: <<a, b>> = assembly b is Scaffold.reverse() of assembly a (rows recorded from the real reversal)
 JRevPair(T, pr) ==
   \A q1 \in 1..Len(T.streams) : \A q2 \in 1..Len(T.streams) :
